@@ -557,23 +557,7 @@ func TestC02TopicMatchBytes(t *testing.T) {
 	ev.RunN(t, "C02", 4, func(t *rapid.T) tmScen {
 		g := rapid.StringOfN(rapid.RuneFrom([]rune{'a', 'b', '/', '+', '#', '$', 'é', 0x10000}), 0, 8, -1)
 		return tmScen{Topic: g.Draw(t, "topic"), Filter: g.Draw(t, "filter")}
-	}, func(s tmScen, c *ev.Case) (v *ev.Violation) {
-		defer func() {
-			if r := recover(); r != nil {
-				v = ev.Violf("C02.topicmatch-panic", "TopicMatch(%q,%q) panicked: %v", s.Topic, s.Filter, r)
-			}
-		}()
-		got := packets.TopicMatch([]byte(s.Topic), []byte(s.Filter))
-		if topicref.TopicName([]byte(s.Topic)) == topicref.Valid && topicref.TopicFilter([]byte(s.Filter)) == topicref.Valid {
-			c.Label("both_valid")
-			want := topicref.Match(s.Topic, s.Filter)
-			if want {
-				c.NonTrivial()
-			}
-			if got != want {
-				return ev.Violf("C02.topicmatch", "TopicMatch(%q,%q)=%v, reference=%v", s.Topic, s.Filter, got, want).With("topic", s.Topic, "filter", s.Filter)
-			}
-		}
-		return nil
+	}, func(s tmScen, c *ev.Case) *ev.Violation {
+		return c02TopicMatchBytes([]byte(s.Topic), []byte(s.Filter), c)
 	})
 }
